@@ -82,11 +82,10 @@ def _rec_wal_class():
     return RecWAL
 
 
-def build(case, stop_after=None):
-    """Build LSMTree + recording WAL + workers for `case`, run (optionally stopping after k events)."""
-    from happysimulator.components.storage.lsm_tree import (_TOMBSTONE, FIFOCompaction, LeveledCompaction, LSMTree,
-                                                             SizeTieredCompaction)
-    from happysimulator.components.storage.wal import SyncEveryWrite, SyncOnBatch, SyncPeriodic, WriteAheadLog
+def make_store(case):
+    """LSMTree + recording WAL for `case` (no simulation yet).  Returns a context dict."""
+    from happysimulator.components.storage.lsm_tree import FIFOCompaction, LeveledCompaction, LSMTree, SizeTieredCompaction
+    from happysimulator.components.storage.wal import SyncEveryWrite, SyncOnBatch, SyncPeriodic
     cfg = case.get("cfg") if isinstance(case.get("cfg"), dict) else {}
     g = lambda k, d=0: abs(_i(cfg.get(k), d))
 
@@ -104,7 +103,19 @@ def build(case, stop_after=None):
     lsm = LSMTree("db", memtable_size=1 + g("mem") % 4, compaction_strategy=strat, wal=wal,
                   sstable_write_latency=ticks(1 + g("wl") % 8), max_levels=2 + g("levels") % 3)
     nkeys = max(1, min(6, abs(_i(case.get("nkeys"), 3))))
-    keys = KEYS[:nkeys]
+    ctx = {"lsm": lsm, "wal": wal, "keys": KEYS[:nkeys], "spans": [], "h": None, "smax": [0, False], "tail_at": [],
+           "desc": f"{sname}/{['every', 'batch', 'periodic'][pol_i]}"}
+    wal.peek = lsm
+    now = lambda: ctx["h"].now_ns()
+    span_generator(lsm, "_compact", ctx["spans"], now, "compact")
+    span_generator(lsm, "_flush_memtable", ctx["spans"], now, "flush")
+    return ctx
+
+
+def run_epoch(ctx, workers, stop_after=None, start_ns=0, wid_off=0):
+    """One simulation ("life") of the store in ctx: runs the writers, optionally abandoned after `stop_after` events."""
+    lsm, wal, keys = ctx["lsm"], ctx["wal"], ctx["keys"]
+    nkeys = len(keys)
 
     def do_op(worker, op, rec):
         code, k, _gap = _op(op)
@@ -115,39 +126,41 @@ def build(case, stop_after=None):
             rec.kind = "del"
             yield from lsm.delete(key)
         else:
-            rec.kind, rec.value = "put", 1000 * (worker.wid + 1) + rec.idx
+            rec.kind, rec.value = "put", 1000 * (worker.wid + wid_off + 1) + rec.idx
             yield from lsm.put(key, rec.value)
         return None
 
-    smax = [0, False]      # highest synced_up_to seen; did it ever move backwards
+    smax, tail_at = ctx["smax"], ctx["tail_at"]
 
-    def sample(_h):
+    def sample(h_):
         v = wal.synced_up_to
         if v < smax[0]:
             smax[1] = True
         elif v > smax[0]:
             smax[0] = v
+        if wal._entries and wal._entries[-1].sequence_number > v:
+            tail_at.append(h_.n_events)      # after this many events the log has an unsynced tail
 
-    workers = [w if isinstance(w, dict) else {} for w in (case.get("workers") or [])][:4]
-    h = WorkerHarness([lsm], workers, do_op, op_gap=lambda op: _op(op)[2], after_event=sample)
-    spans = []
-    wal.peek = lsm
-    span_generator(lsm, "_compact", spans, h.now_ns, "compact")
-    span_generator(lsm, "_flush_memtable", spans, h.now_ns, "flush")
+    workers = [w if isinstance(w, dict) else {} for w in (workers or [])][:4]
+    h = WorkerHarness([lsm], workers, do_op, op_gap=lambda op: _op(op)[2], after_event=sample, start_ns=start_ns)
+    ctx["h"] = h
     h.run(stop_after)
-    return h, lsm, wal, {"keys": keys, "spans": spans, "smax": smax, "desc": f"{sname}/{['every', 'batch', 'periodic'][pol_i]}"}
+    if wid_off:
+        for rec in h.ops:
+            rec.worker += wid_off
+    return h
 
 
-def judge_crash_point(r, obl, case, k, seen):
-    """Re-execute, stop after k events, crash, recover; add violations (once per signature) to r."""
-    h, lsm, wal, info = build(case, stop_after=k)
-    keys = info["keys"]
-    S_now, S = wal.synced_up_to, max(info["smax"][0], wal.synced_up_to)
-    in_wal = {e.sequence_number for e in wal._entries}
-    pre = {key: lsm.get_sync(key) for key in keys}
-    inflight = [s for s in info["spans"] if s.end is None]
-    suspended = bool(inflight)
-    lsm.crash()
+def build(case, stop_after=None):
+    """Build LSMTree + recording WAL + workers for `case`, run (optionally stopping after k events)."""
+    ctx = make_store(case)
+    h = run_epoch(ctx, case.get("workers"), stop_after)
+    return h, ctx["lsm"], ctx["wal"], ctx
+
+
+def crash_and_read(lsm, keys):
+    """crash(), recover, read; recover again, read; crash+recover again, read."""
+    lost = lsm.crash()
     lsm.recover_from_crash()
     r1 = {key: lsm.get_sync(key) for key in keys}
     lsm.recover_from_crash()
@@ -155,27 +168,28 @@ def judge_crash_point(r, obl, case, k, seen):
     lsm.crash()
     lsm.recover_from_crash()
     r3 = {key: lsm.get_sync(key) for key in keys}
+    return lost, r1, r2, r3
 
-    def add(sig, detail):
-        if sig not in seen:
-            seen.add(sig)
-            r.add(sig, f"[{info['desc']}] crash after {k} events (S={S}): {detail}")
 
+def judge_recovered(add, obl, ops, is_durable, ctx, pre, reads, S_now, S, in_wal):
+    """The oracle: every key's recovered value must come from a write (or the initial absence) that is not definitely
+    superseded by a durable write; repeated recoveries must read the same.  `ops` = all write records of the store's
+    history (all epochs), `is_durable(rec)` = its WAL sync had completed before the crash that ended ITS epoch."""
+    wal, keys = ctx["wal"], ctx["keys"]
+    r1, r2, r3 = reads
     # --- consistency of the harness's own bookkeeping (seq numbers noted by the workers vs. the WAL log)
     byseq = {s: (key, v) for s, key, v in wal.applog}
     orc = IntervalOracle()
-    durable = {}      # key -> list of durable write records (as oracle entries)
-    for rec in h.ops:
+    for rec in ops:
         if rec.kind not in ("put", "del"):
             continue
         val = rec.value if rec.kind == "put" else ABSENT
         if byseq.get(rec.aux) != (rec.key, val):
             raise AssertionError(f"harness bookkeeping: op {rec.brief()} expected seq {rec.aux}, WAL logged {byseq.get(rec.aux)}")
         orc.add_write(rec.key, val, rec)
-    fin = FinalRead()
     for key in keys:
         hist = orc._hist(key)
-        dur = [w for w in hist if w.rec is not None and w.rec.aux <= S]
+        dur = [w for w in hist if w.rec is not None and is_durable(w.rec)]
         # acceptable: any write (or the initial absence) not definitely superseded by a durable write
         acc = [w for w in hist if not any(d is not w and before(w, d) for d in dur)]
         okv = [w.value for w in acc]
@@ -192,10 +206,10 @@ def judge_crash_point(r, obl, case, k, seen):
             elif pre[key] == got:
                 # not a recovery problem: the store already returned this value before the crash (C14 territory); attributed
                 # to the one known C14 root cause that is persistent if two compactions ran at the same time
-                co = [s_ for s_ in info["spans"] if s_.name == "compact" and s_.end != s_.start]
+                co = [s_ for s_ in ctx["spans"] if s_.name == "compact" and s_.end != s_.start]
                 twice = any(a is not b and a.start <= b.start and (a.end is None or b.start < a.end) for a in co for b in co)
                 clause = "concurrent-compactions-lose-newer-data" if twice else "wrong-before-the-crash-already"
-            elif info["smax"][1] or S_now < S:
+            elif ctx["smax"][1] or S_now < S:
                 clause = "synced-up-to-moved-backwards"
             elif got is ABSENT or any(d.value is not ABSENT for d in killers):
                 clause = "durable-write-lost"
@@ -208,8 +222,123 @@ def judge_crash_point(r, obl, case, k, seen):
             add(f"{P}/{obl}/second-recovery-differs", f"key {key}: {r1[key]!r} after one recover_from_crash(), {r2[key]!r} after two")
         if r3[key] != r1[key]:
             add(f"{P}/{obl}/second-crash-recovery-differs", f"key {key}: {r1[key]!r} after crash+recover, {r3[key]!r} after another crash+recover")
+
+
+def judge_crash_point(r, obl, case, k, seen):
+    """Re-execute, stop after k events, crash, recover; add violations (once per signature) to r."""
+    h, lsm, wal, info = build(case, stop_after=k)
+    keys = info["keys"]
+    S_now, S = wal.synced_up_to, max(info["smax"][0], wal.synced_up_to)
+    in_wal = {e.sequence_number for e in wal._entries}
+    pre = {key: lsm.get_sync(key) for key in keys}
+    inflight = [s for s in info["spans"] if s.end is None]
+    suspended = bool(inflight)
+    _lost, r1, r2, r3 = crash_and_read(lsm, keys)
+
+    def add(sig, detail):
+        if sig not in seen:
+            seen.add(sig)
+            r.add(sig, f"[{info['desc']}] crash after {k} events (S={S}): {detail}")
+
+    judge_recovered(add, obl, h.ops, lambda rec: rec.aux <= S, info, pre, (r1, r2, r3), S_now, S, in_wal)
     truncated_newer = bool(wal.truncs) and any(rec.aux <= max(wal.truncs) and rec.aux not in in_wal and not rec.done for rec in h.ops)
     return h, suspended, truncated_newer, [s.name for s in inflight]
+
+
+# ------------------------------------------------------------------------------------ two epochs
+def two_epochs(case, c1, k2):
+    """Life 1: run case['workers'], abandoned after c1 events, crash(), recover_from_crash().  Life 2 (same LSMTree and WAL
+    objects, simulated time continues one tick after the first crash): run case['workers2'], abandoned after k2 events
+    (None = to completion).  Returns (ctx, h1, h2, S1, lost1)."""
+    from ..harness import TICK
+    ctx = make_store(case)
+    lsm, wal = ctx["lsm"], ctx["wal"]
+    h1 = run_epoch(ctx, case.get("workers"), stop_after=c1)
+    S1 = max(ctx["smax"][0], wal.synced_up_to)
+    t1 = h1.now_ns()
+    for rec in h1.ops:          # processes in flight died with the crash: they end there (and precede everything in life 2)
+        if rec.end is None:
+            rec.end = t1
+    for sp in ctx["spans"]:
+        if sp.end is None:
+            sp.end = t1
+    lost1 = lsm.crash().get("wal_entries_lost", 0)
+    lsm.recover_from_crash()
+    # classification bookkeeping of the recording WAL: nothing is "in its append latency" any more, and every surviving
+    # entry now lives in the recovered memtable
+    wal.unapplied.clear()
+    for e in wal._entries:
+        wal.home[e.sequence_number] = lsm._memtable
+    h2 = run_epoch(ctx, case.get("workers2"), stop_after=k2, start_ns=t1 + TICK, wid_off=10)
+    return ctx, h1, h2, S1, lost1
+
+
+def execute_two_epochs(obl):
+    def execute(case):
+        r = Result()
+        ctx0 = make_store(case)
+        h0 = run_epoch(ctx0, case.get("workers"))                  # life 1 to completion: N1 and where an unsynced tail exists
+        r.labels.append(ctx0["desc"])
+        if h0.status != "done" or not h0.all_finished or h0.n_events > 400:
+            r.labels.append("inconclusive-" + str(h0.status))
+            return r
+        n1, tails = h0.n_events, sorted(set(ctx0["tail_at"]))
+        picks = [abs(_i(x)) for x in (case.get("c1") or [0])][:3] or [0]
+        firsts = []
+        for j, x in enumerate(picks):       # sampled first-crash positions: the first two prefer points with an unsynced tail
+            pool = tails if (tails and j < 2) else list(range(n1 + 1))
+            c = pool[x % len(pool)]
+            if c not in firsts:
+                firsts.append(c)
+        seen = set()
+        points = lost_cases = n_flush = n_comp = 0
+        for c1 in firsts:
+            ctx, h1, h2, S1, lost1 = two_epochs(case, c1, None)
+            if h2.status != "done" or not h2.all_finished or h2.n_events > 400:
+                r.labels.append("inconclusive-" + str(h2.status))
+                continue
+            lost_cases += lost1 > 0
+            e1 = {id(x) for x in h1.ops}
+            for k2 in range(0, h2.n_events + 1):
+                ctx, h1, h2, S1, lost1 = two_epochs(case, c1, k2)
+                lsm, wal, keys = ctx["lsm"], ctx["wal"], ctx["keys"]
+                S_now, S2 = wal.synced_up_to, max(ctx["smax"][0], wal.synced_up_to)
+                in_wal = {e.sequence_number for e in wal._entries}
+                pre = {key: lsm.get_sync(key) for key in keys}
+                names = [s.name for s in ctx["spans"] if s.end is None]
+                n_flush += "flush" in names
+                n_comp += "compact" in names
+                _lost, r1, r2, r3 = crash_and_read(lsm, keys)
+                first = {id(x) for x in h1.ops}
+
+                def add(sig, detail, c1=c1, k2=k2, S1=S1, S2=S2, lost1=lost1, desc=ctx["desc"]):
+                    if sig not in seen:
+                        seen.add(sig)
+                        r.add(sig, f"[{desc}] first crash after {c1} events (S={S1}, {lost1} unsynced entries lost), recovery, "
+                                   f"second crash after {k2} more events (S={S2}): {detail}")
+
+                judge_recovered(add, obl, h1.ops + h2.ops,
+                                lambda rec, first=first, S1=S1, S2=S2: rec.aux <= (S1 if id(rec) in first else S2),
+                                ctx, pre, (r1, r2, r3), S_now, S2, in_wal)
+                points += 1
+        r.nontrivial = lost_cases > 0 and points > 0
+        lo = min(points // 25 * 25, 150)
+        r.labels += [f"crash-points:{lo}-{lo + 24}" if lo < 150 else "crash-points:150+", "exhaustive-second-crash-points",
+                     f"first-crashes:{len(firsts)}"]
+        if lost_cases:
+            r.labels.append("first-crash-lost-unsynced-entry")
+        if n_flush:
+            r.labels.append("crash-during-flush")
+        if n_comp:
+            r.labels.append("crash-during-compaction")
+        if r.violations:
+            r.labels.append("violating")
+        r.observed = {"crash_points": points, "first_crashes": firsts, "first_crashes_losing_unsynced": lost_cases}
+        r.counters = {"crash_points_executed": points, "crash_points_during_flush": n_flush, "crash_points_during_compaction": n_comp,
+                      "first_crashes_sampled": len(firsts), "first_crashes_losing_unsynced_entry": lost_cases}
+        r.target = float(2 * lost_cases + min(n_flush, 10) / 10)
+        return r
+    return execute
 
 
 def execute_factory(obl):
@@ -267,6 +396,21 @@ def strategy(single):
     return s
 
 
+def strategy_two_epochs(tier):
+    big = tier == "thorough"
+    op = st.tuples(st.integers(0, 3), st.integers(0, 4), st.sampled_from([0, 0, 0, 1, 1, 2, 3])).map(list)
+
+    def ws(maxops):
+        return st.lists(st.fixed_dictionaries({"start": st.integers(0, 8), "ops": st.lists(op, min_size=1, max_size=maxops)}),
+                        min_size=1, max_size=3)
+    cfg = st.fixed_dictionaries({"sync": st.sampled_from([1, 1, 2]), "batch": st.integers(0, 2), "period": st.integers(0, 5),
+                                 "ww": st.integers(0, 3), "ws": st.integers(0, 5), "strat": st.integers(0, 2),
+                                 "p1": st.sampled_from([0, 0, 1, 2, 3, 4]), "p2": st.integers(0, 3),
+                                 "mem": st.sampled_from([1, 1, 2, 3, 3, 0]), "wl": st.integers(0, 7), "levels": st.integers(0, 2)})
+    return st.fixed_dictionaries({"cfg": cfg, "nkeys": st.integers(2, 5), "workers": ws(7 if big else 5), "workers2": ws(8 if big else 6),
+                                  "c1": st.lists(st.integers(0, 400), min_size=2, max_size=3)})
+
+
 _RULE = ("writers doing put/delete over 2-5 keys on LSMTree(memtable 1-4, 2-4 levels, size-tiered/leveled/FIFO) + WriteAheadLog "
          "(sync every write / batch 2-4 / periodic); the workload is re-executed and abandoned after k events for EVERY k = 0..N, then "
          "crash(), recover_from_crash(), get_sync of all keys, recover again, crash+recover again; NOTE: evaluations count WORKLOADS - "
@@ -281,4 +425,14 @@ OBLIGATIONS = [
                _RULE + "one writer (restricted domain: flushes and compactions run inside the put that triggers them, so no WAL entry "
                "of a newer memtable exists when the log is truncated and no two compactions overlap); same non-trivial rule",
                case_timeout={"quick": 60.0, "thorough": 180.0}),
+    Obligation("crash-two-epochs", strategy_two_epochs, execute_two_epochs("crash-two-epochs"), {"quick": 140, "thorough": 3000},
+               "two lives of one LSMTree + WriteAheadLog with a batch or periodic sync policy (memtable mostly 2-4 so that synced entries stay in "
+               "the log): life 1 = 1-3 writers, crashed at 2-3 SAMPLED event indexes taken from the case (the first two preferring points at "
+               "which the log has an unsynced tail), crash(), recover_from_crash(); life 2 = a second generated workload of 1-3 writers on the "
+               "recovered store (simulated time continues) whose crash points are ENUMERATED (k = 0..N2 for every sampled first crash, each by "
+               "re-executing both lives); after the second crash+recovery the same oracle is applied with the durable set carried across lives "
+               "(life-1 writes durable iff seq <= synced_up_to at the first crash, life-2 writes iff seq <= synced_up_to at the second; writes "
+               "in flight at the first crash end there and precede life 2); recover again / crash+recover again must read the same. "
+               "Evaluations count workloads; counters.crash_points_executed counts second-crash points. non-trivial = a sampled first crash "
+               "really lost an unsynced WAL entry (also the hypothesis.target score)", case_timeout={"quick": 90.0, "thorough": 240.0}),
 ]
